@@ -114,12 +114,12 @@ theorem find_mem {l : List NTD} {s : Nat} {a : NTD} (h : l.find? (·.stop = s) =
 /-- what the best-access selection returns -/
 theorem bestAccess_spec {cx : Ctx} {s : RState} {t : Int} {node : Nat} (h : bestAccess cx s = some (t, node)) :
     ∃ js e ac, s.acc node = some js ∧ js.enter = some e ∧ cx.nodesAccess node = some ac ∧
-      t = e.dep - ac.time - e.effWait cx.p.minWait := by
+      t = e.dep - ac.time - e.effWait cx.p.minWait ∧ 0 ≤ t ∧ cx.arrT - t ≤ cx.p.maxTotal := by
   unfold bestAccess at h
   -- invariant of the fold: the stop held in the accumulator (if any) satisfies the claim
   have key : ∀ (l : List NTD) (acc : Int × Option Nat),
       (∀ n, acc.2 = some n → ∃ js e ac, s.acc n = some js ∧ js.enter = some e ∧ cx.nodesAccess n = some ac ∧
-        acc.1 = e.dep - ac.time - e.effWait cx.p.minWait) →
+        acc.1 = e.dep - ac.time - e.effWait cx.p.minWait ∧ 0 ≤ acc.1 ∧ cx.arrT - acc.1 ≤ cx.p.maxTotal) →
       ∀ n, (l.foldl (fun (acc : Int × Option Nat) a =>
         match s.acc a.stop with
         | some js => match js.enter, cx.nodesAccess a.stop with
@@ -136,7 +136,23 @@ theorem bestAccess_spec {cx : Ctx} {s : RState} {t : Int} {node : Nat} (h : best
             let t := e.dep - ac.time - e.effWait cx.p.minWait
             if t ≥ 0 ∧ cx.arrT - t ≤ cx.p.maxTotal ∧ t > acc.1 ∧ t < MAX_INT then (t, some ac.stop) else acc
           | _, _ => acc
-        | none => acc) acc).1 = e.dep - ac.time - e.effWait cx.p.minWait := by
+        | none => acc) acc).1 = e.dep - ac.time - e.effWait cx.p.minWait ∧
+          0 ≤ (l.foldl (fun (acc : Int × Option Nat) a =>
+        match s.acc a.stop with
+        | some js => match js.enter, cx.nodesAccess a.stop with
+          | some e, some ac =>
+            let t := e.dep - ac.time - e.effWait cx.p.minWait
+            if t ≥ 0 ∧ cx.arrT - t ≤ cx.p.maxTotal ∧ t > acc.1 ∧ t < MAX_INT then (t, some ac.stop) else acc
+          | _, _ => acc
+        | none => acc) acc).1 ∧
+          cx.arrT - (l.foldl (fun (acc : Int × Option Nat) a =>
+        match s.acc a.stop with
+        | some js => match js.enter, cx.nodesAccess a.stop with
+          | some e, some ac =>
+            let t := e.dep - ac.time - e.effWait cx.p.minWait
+            if t ≥ 0 ∧ cx.arrT - t ≤ cx.p.maxTotal ∧ t > acc.1 ∧ t < MAX_INT then (t, some ac.stop) else acc
+          | _, _ => acc
+        | none => acc) acc).1 ≤ cx.p.maxTotal := by
     intro l
     induction l with
     | nil => intro acc hacc n hn; exact hacc n hn
@@ -163,7 +179,7 @@ theorem bestAccess_spec {cx : Ctx} {s : RState} {t : Int} {node : Nat} (h : best
               rename_i hc
               rw [if_pos hc]
               rw [hst]
-              exact ⟨js, e, ac, hsa, hje, hna, rfl⟩
+              exact ⟨js, e, ac, hsa, hje, hna, rfl, hc.1, hc.2.1⟩
             · rename_i hc
               rw [if_neg hc]
               exact hacc n hn
@@ -176,8 +192,8 @@ theorem bestAccess_spec {cx : Ctx} {s : RState} {t : Int} {node : Nat} (h : best
     simp at h
     obtain ⟨h1, h2⟩ := h
     subst h1; subst h2
-    obtain ⟨js, e, ac, a1, a2, a3, a4⟩ := this rfl
-    exact ⟨js, e, ac, a1, a2, a3, a4⟩
+    obtain ⟨js, e, ac, a1, a2, a3, a4, a5, a6⟩ := this rfl
+    exact ⟨js, e, ac, a1, a2, a3, a4, a5, a6⟩
 
 /-- the first leg of the reconstructed journey boards what the loop started with -/
 theorem reconLoop_head (steps : Nat → JStep) : ∀ (fuel : Nat) (cur : JStep) (acc : List JStep) (last : Option Nat)
@@ -227,7 +243,8 @@ theorem nodes_mem {l : List NTD} {s : Nat} {a : NTD} (h : l.find? (·.stop = s) 
 theorem reverseJourney_emits {cx : Ctx} {pre : List Conn} {s : RState} (hI : RInv cx pre s)
     (hclean : CleanupPreserves cx pre) {r : Route}
     (h : reverseJourney cx s (bestAccess cx s) = .ok r) :
-    ∃ bd j, r = emit cx.ds cx.p.minWait bd j ∧ JourneyOK cx pre bd j := by
+    ∃ bd j, r = emit cx.ds cx.p.minWait bd j ∧ JourneyOK cx pre bd j ∧
+      0 ≤ bd ∧ cx.arrT - bd ≤ cx.p.maxTotal ∧ (cx.depT ≠ -1 → cx.depT ≤ bd) := by
   unfold reverseJourney at h
   cases hb : bestAccess cx s with
   | none => rw [hb] at h; cases h
@@ -235,7 +252,7 @@ theorem reverseJourney_emits {cx : Ctx} {pre : List Conn} {s : RState} (hI : RIn
     obtain ⟨bd, node⟩ := b
     rw [hb] at h
     simp only at h
-    obtain ⟨js, e1, ac, hacc, hje, hna, hbd⟩ := bestAccess_spec hb
+    obtain ⟨js, e1, ac, hacc, hje, hna, hbd, hbd0, hbdT⟩ := bestAccess_spec hb
     rw [hacc] at h
     simp only at h
     cases hrec : reconLoop s.steps (cx.ds.nStops + 2) js [] none with
@@ -256,7 +273,7 @@ theorem reverseJourney_emits {cx : Ctx} {pre : List Conn} {s : RState} (hI : RIn
           simp only [Outcome.ok.injEq] at h
           subst h
           -- the reconstructed journey is valid
-          obtain ⟨e1', x1, a1, a2, a3, a4⟩ := hI.acc node js hacc
+          obtain ⟨e1', x1, a1, a2, a3, a4, a5⟩ := hI.acc node js hacc
           rw [hje] at a1; cases a1
           have hconn : js.hasConns = true := (hasConns_iff js).mpr ⟨e1, x1, hje, a2⟩
           have hinit : RecInv cx pre s [] js none := by
@@ -286,7 +303,11 @@ theorem reverseJourney_emits {cx : Ctx} {pre : List Conn} {s : RState} (hI : RIn
                 cases eg; simp at hm ⊢; exact hm.2.symm
               simp only []
               rw [this]; exact hm.1
-          exact ⟨bd, o.journey, rfl, hclean bd _ o hJ hopt⟩
+          refine ⟨bd, o.journey, rfl, hclean bd _ o hJ hopt, hbd0, hbdT, ?_⟩
+          intro hd
+          obtain ⟨ac', hna', hle, _⟩ := a5 hd
+          rw [hna] at hna'; cases hna'
+          omega
 
 /-- **`reverseJourneyStep` returns a valid itinerary** whenever the clean-up preserves validity -/
 theorem reverseJourney_valid {cx : Ctx} {pre T : List Conn} {s : RState} (hI : RInv cx pre s)
@@ -294,7 +315,7 @@ theorem reverseJourney_valid {cx : Ctx} {pre T : List Conn} {s : RState} (hI : R
     (hclean : CleanupPreserves cx pre) {r : Route}
     (h : reverseJourney cx s (bestAccess cx s) = .ok r) :
     ValidItinerary T cx.ds.foot cx.accessFoot cx.egressFoot mwOf r := by
-  obtain ⟨bd, j, rfl, hJ⟩ := reverseJourney_emits hI hclean h
+  obtain ⟨bd, j, rfl, hJ, _⟩ := reverseJourney_emits hI hclean h
   exact emit_valid hpT mwOf hmw hJ
 
 end Tr
